@@ -3,7 +3,10 @@ from vf.props import reg, COMMON_ASSUMPTIONS
 
 reg(Prop(
     'C07',
-    [Harness('c07_rawvec', parts=16, thorough_cfg='asan1')],
+    [Harness('c07_rawvec', parts=16, thorough_cfg='asan1'),
+     # thorough only: the same harness without sanitizer instrumentation under valgrind memcheck (uninitialised reads and
+     # leaks that ASan's red zones do not see), on a reduced number of histories
+     Harness('c07_rawvec_memcheck', src=['c07_rawvec.cpp'], cfg='plain', runner='valgrind', tiers=('thorough',), parts=16, args=['--small'])],
     rule='A case is one seeded operation history (up to 41 steps quick / 61 thorough) on a raw_vector<T, ledger allocator> '
          '(T = int, unsigned char, a 24-byte trivial struct) starting from one of 7 constructors, or on a buffer<T>, or one '
          '(length,count) pair for io::read_chars. After every step the real container is compared with a shadow std::vector '
